@@ -49,10 +49,10 @@ N = 96
 _counter = [0]
 
 
-def load_source(src, name):
+def load_source(src, name, **globs):
     _counter[0] += 1
     filename = f"<vf-c09-{_counter[0]}>"
-    ns = {"__name__": "vf_generated"}
+    ns = {"__name__": "vf_generated", **globs}
     exec(compile(src, filename, "exec"), ns)  # noqa: S102
     linecache.cache[filename] = (len(src), None, src.splitlines(True), filename)
     return ns[name]
@@ -388,7 +388,44 @@ def check_program(case):
     if status == "differ":
         cause = root_cause(case["src"], "prog", arrays)
         fails.append(core.Failure(f"construct:{cause}", f"generated program: array form differs silently: {detail}\n{case['src']}"))
+    elif status != "raises" and case["seed"] % 3 == 0:
+        fails.extend(same_source_other_globals(case["src"], arrays))
     return fails, status, compared
+
+
+class _ConstToGlobal(ast.NodeTransformer):
+    """Replace the first float literal of a program by the module-level name VF_G."""
+
+    def __init__(self):
+        self.done = None
+
+    def visit_Constant(self, node):
+        if self.done is None and isinstance(node.value, float):
+            self.done = node.value
+            return ast.copy_location(ast.Name(id="VF_G", ctx=ast.Load()), node)
+        return node
+
+
+def same_source_other_globals(src, arrays):
+    """The array form belongs to the function it was produced from: two functions with the same source text
+    in modules whose constants differ (two reform scripts, or a constant edited between two rewrites) must
+    each agree with their own scalar original."""
+    tr = _ConstToGlobal()
+    tree = ast.fix_missing_locations(tr.visit(ast.parse(src)))
+    if tr.done is None:
+        return []
+    src2 = ast.unparse(tree)
+    for g in (tr.done, tr.done + 1.5):
+        try:
+            f = load_source(src2, "prog", VF_G=g)
+            status, detail, _, _ = run_both(f, arrays)
+        except Exception:  # noqa: BLE001
+            return []
+        if status == "differ":
+            return [core.Failure("same-source-other-globals", f"two functions with identical source text and different module constants "
+                                 f"(VF_G = {tr.done} / {tr.done + 1.5}): the array form of the one with VF_G = {g} differs silently from its own "
+                                 f"scalar original: {detail}\n{src2}")]
+    return []
 
 
 def paths_taken(src, seed):
